@@ -3,14 +3,14 @@ Helper lemmas for the pure-function theorems of C04 (containment) and C06 (deadl
 
 Everything here is about the model's functions for *all* states and arguments; no reachability.
 
-* `Frame`: what `resolveFut`, `taskCancel`, `hitTask`, `deliverGo`, `deliver`, `restartList`,
+* `DFrame`: what `resolveFut`, `taskCancel`, `hitTask`, `deliverGo`, `deliver`, `restartList`,
   `restartInParent` leave untouched: every field of every scope except the bookkeeping fields
   `pending` and `deliver`, the clock, the timers, the current batch, the `scope`/`hasState`
   fields of every task; `ready` only grows, and never by a `timeout` handle.
 * the walk functions (`effCancelledList`, `effCancelled`, `parentVisible`, `effDeadlineList`)
   depend only on framed fields.
 * `exitScope` is split into `exitMid` (unlinking + `_restart_cancellation_in_parent`) and
-  `exitTail` (the absorb-or-propagate decision); `exitScope_eq` holds by `rfl`.
+  `exitDecide` (the absorb-or-propagate decision); `exitScope_split` holds by `rfl`.
 -/
 import AnyioModel.Kernel.Step
 
@@ -28,7 +28,7 @@ def Scope.ctl (x : Scope) : Scope := { x with pending := 0, deliver := false }
     ({ x with deliver := b } : Scope).ctl = x.ctl := rfl
 
 /-- what cancellation delivery leaves untouched -/
-structure Frame (st st' : State) : Prop where
+structure DFrame (st st' : State) : Prop where
   scopes : ∀ i, (st'.scopes i).ctl = (st.scopes i).ctl
   now : st'.now = st.now
   timers : st'.timers = st.timers
@@ -39,10 +39,10 @@ structure Frame (st st' : State) : Prop where
   taskScope : ∀ t, (st'.tasks t).scope = (st.tasks t).scope
   taskHasState : ∀ t, (st'.tasks t).hasState = (st.tasks t).hasState
 
-theorem Frame.refl (st : State) : Frame st st :=
+theorem DFrame.refl (st : State) : DFrame st st :=
   ⟨fun _ => rfl, rfl, rfl, rfl, rfl, rfl, ⟨[], by simp⟩, fun _ => rfl, fun _ => rfl⟩
 
-theorem Frame.trans {a b c : State} (h1 : Frame a b) (h2 : Frame b c) : Frame a c := by
+theorem DFrame.trans {a b c : State} (h1 : DFrame a b) (h2 : DFrame b c) : DFrame a c := by
   obtain ⟨e1, he1, hn1⟩ := h1.ready
   obtain ⟨e2, he2, hn2⟩ := h2.ready
   refine ⟨fun i => (h2.scopes i).trans (h1.scopes i), h2.now.trans h1.now,
@@ -78,9 +78,9 @@ end
 
 /-! ### frames of the primitive updates -/
 
-theorem Frame.setTask_st (st : State) (t : Nat) (f : Task → Task)
+theorem DFrame.setTask_st (st : State) (t : Nat) (f : Task → Task)
     (h1 : ∀ x, (f x).scope = x.scope) (h2 : ∀ x, (f x).hasState = x.hasState) :
-    Frame st (st.setTask t f) := by
+    DFrame st (st.setTask t f) := by
   refine ⟨fun _ => rfl, rfl, rfl, rfl, rfl, rfl, ⟨[], by simp [State.setTask]⟩, ?_, ?_⟩
   · intro u; simp only [State.setTask, upd_apply]; split
     · subst_vars; exact h1 _
@@ -89,116 +89,116 @@ theorem Frame.setTask_st (st : State) (t : Nat) (f : Task → Task)
     · subst_vars; exact h2 _
     · rfl
 
-theorem Frame.setFut (st : State) (f : Nat) (v : FutSt) : Frame st (st.setFut f v) :=
+theorem DFrame.setFut (st : State) (f : Nat) (v : FutSt) : DFrame st (st.setFut f v) :=
   ⟨fun _ => rfl, rfl, rfl, rfl, rfl, rfl, ⟨[], by simp [State.setFut]⟩, fun _ => rfl, fun _ => rfl⟩
 
-theorem Frame.schedule (st : State) (h : Handle) (hh : ∀ s, h ≠ .timeout s) :
-    Frame st (st.schedule h) :=
+theorem DFrame.schedule (st : State) (h : Handle) (hh : ∀ s, h ≠ .timeout s) :
+    DFrame st (st.schedule h) :=
   ⟨fun _ => rfl, rfl, rfl, rfl, rfl, rfl, ⟨[h], by simp [State.schedule], by simpa using hh⟩,
     fun _ => rfl, fun _ => rfl⟩
 
-theorem Frame.setScope_ctl (st : State) (s : Nat) (f : Scope → Scope)
-    (h : ∀ x, (f x).ctl = x.ctl) : Frame st (st.setScope s f) := by
+theorem DFrame.setScope_ctl (st : State) (s : Nat) (f : Scope → Scope)
+    (h : ∀ x, (f x).ctl = x.ctl) : DFrame st (st.setScope s f) := by
   refine ⟨?_, rfl, rfl, rfl, rfl, rfl, ⟨[], by simp [State.setScope]⟩, fun _ => rfl, fun _ => rfl⟩
   intro i; simp only [State.setScope, upd_apply]; split
   · subst_vars; exact h _
   · rfl
 
-theorem Frame.resolveFut (st : State) (f : Nat) (v : FutSt) : Frame st (resolveFut st f v) := by
+theorem DFrame.resolveFut (st : State) (f : Nat) (v : FutSt) : DFrame st (resolveFut st f v) := by
   unfold AnyioModel.Kernel.resolveFut
   split
-  · exact Frame.refl _
-  · have h1 := Frame.setFut st f v
+  · exact DFrame.refl _
+  · have h1 := DFrame.setFut st f v
     dsimp only
     split
     · split
       · refine h1.trans ?_
-        refine Frame.trans ?_ (Frame.schedule _ _ (by intro s; simp))
-        exact Frame.setTask_st _ _ _ (fun _ => rfl) (fun _ => rfl)
+        refine DFrame.trans ?_ (DFrame.schedule _ _ (by intro s; simp))
+        exact DFrame.setTask_st _ _ _ (fun _ => rfl) (fun _ => rfl)
       · exact h1
     · exact h1
 
-theorem Frame.taskCancel (st : State) (t : Nat) (a : Bool) : Frame st (taskCancel st t a) := by
+theorem DFrame.taskCancel (st : State) (t : Nat) (a : Bool) : DFrame st (taskCancel st t a) := by
   unfold AnyioModel.Kernel.taskCancel
   dsimp only
   split
-  · exact Frame.refl _
-  · have h1 : Frame st (st.setTask t (fun x =>
+  · exact DFrame.refl _
+  · have h1 : DFrame st (st.setTask t (fun x =>
         { x with ncancel := x.ncancel + 1,
                  nNative := if a then x.nNative else x.nNative + 1,
                  nAnyio := if a then x.nAnyio + 1 else x.nAnyio })) :=
-      Frame.setTask_st _ _ _ (fun _ => rfl) (fun _ => rfl)
+      DFrame.setTask_st _ _ _ (fun _ => rfl) (fun _ => rfl)
     split
-    · exact h1.trans (Frame.resolveFut _ _ _)
-    · exact h1.trans (Frame.setTask_st _ _ _ (fun _ => rfl) (fun _ => rfl))
+    · exact h1.trans (DFrame.resolveFut _ _ _)
+    · exact h1.trans (DFrame.setTask_st _ _ _ (fun _ => rfl) (fun _ => rfl))
 
-theorem Frame.taskUncancel (st : State) (t n : Nat) : Frame st (taskUncancel st t n) :=
-  Frame.setTask_st _ _ _ (fun _ => rfl) (fun _ => rfl)
+theorem DFrame.taskUncancel (st : State) (t n : Nat) : DFrame st (taskUncancel st t n) :=
+  DFrame.setTask_st _ _ _ (fun _ => rfl) (fun _ => rfl)
 
-theorem Frame.hitTask (origin s : Nat) (acc : State × Bool) (t : Nat) :
-    Frame acc.1 (hitTask origin s acc t).1 := by
+theorem DFrame.hitTask (origin s : Nat) (acc : State × Bool) (t : Nat) :
+    DFrame acc.1 (hitTask origin s acc t).1 := by
   unfold AnyioModel.Kernel.hitTask
   dsimp only
   split
-  · exact Frame.refl _
+  · exact DFrame.refl _
   · split
-    · exact Frame.refl _
+    · exact DFrame.refl _
     · split
       · split
-        · exact Frame.refl _
+        · exact DFrame.refl _
         · dsimp only
           split
-          · exact (Frame.taskCancel _ _ _).trans
-              (Frame.setScope_ctl _ _ _ (fun _ => rfl))
-          · exact Frame.taskCancel _ _ _
-      · exact Frame.refl _
+          · exact (DFrame.taskCancel _ _ _).trans
+              (DFrame.setScope_ctl _ _ _ (fun _ => rfl))
+          · exact DFrame.taskCancel _ _ _
+      · exact DFrame.refl _
 
-theorem Frame.foldl {α : Type} (f : State × Bool → α → State × Bool)
-    (hf : ∀ acc a, Frame acc.1 (f acc a).1) (l : List α) (acc : State × Bool) :
-    Frame acc.1 (l.foldl f acc).1 := by
+theorem DFrame.foldl {α : Type} (f : State × Bool → α → State × Bool)
+    (hf : ∀ acc a, DFrame acc.1 (f acc a).1) (l : List α) (acc : State × Bool) :
+    DFrame acc.1 (l.foldl f acc).1 := by
   induction l generalizing acc with
-  | nil => exact Frame.refl _
+  | nil => exact DFrame.refl _
   | cons a l ih => exact (hf acc a).trans (ih _)
 
-theorem Frame.deliverGo (fuel : Nat) (st : State) (origin s : Nat) :
-    Frame st (deliverGo fuel st origin s).1 := by
+theorem DFrame.deliverGo (fuel : Nat) (st : State) (origin s : Nat) :
+    DFrame st (deliverGo fuel st origin s).1 := by
   induction fuel generalizing st s with
-  | zero => exact Frame.refl _
+  | zero => exact DFrame.refl _
   | succ n ih =>
     unfold AnyioModel.Kernel.deliverGo
     dsimp only
-    refine Frame.trans (Frame.foldl _ (Frame.hitTask origin s) (st.scopes s).tasks (st, false)) ?_
-    refine Frame.foldl _ ?_ _ _
+    refine DFrame.trans (DFrame.foldl _ (DFrame.hitTask origin s) (st.scopes s).tasks (st, false)) ?_
+    refine DFrame.foldl _ ?_ _ _
     intro acc c
     split
     · exact ih _ _
-    · exact Frame.refl _
+    · exact DFrame.refl _
 
-theorem Frame.deliver (st : State) (origin : Nat) : Frame st (deliver st origin) := by
+theorem DFrame.deliver (st : State) (origin : Nat) : DFrame st (deliver st origin) := by
   unfold AnyioModel.Kernel.deliver
   dsimp only
-  have h := Frame.deliverGo (st.nScopes + 1) st origin origin
+  have h := DFrame.deliverGo (st.nScopes + 1) st origin origin
   split
   · refine h.trans ?_
-    refine Frame.trans ?_ (Frame.schedule _ _ (by intro s; simp))
-    exact Frame.setScope_ctl _ _ _ (fun _ => rfl)
-  · exact h.trans (Frame.setScope_ctl _ _ _ (fun _ => rfl))
+    refine DFrame.trans ?_ (DFrame.schedule _ _ (by intro s; simp))
+    exact DFrame.setScope_ctl _ _ _ (fun _ => rfl)
+  · exact h.trans (DFrame.setScope_ctl _ _ _ (fun _ => rfl))
 
-theorem Frame.restartList (st : State) (l : List Nat) : Frame st (restartList st l) := by
+theorem DFrame.restartList (st : State) (l : List Nat) : DFrame st (restartList st l) := by
   induction l with
-  | nil => exact Frame.refl _
+  | nil => exact DFrame.refl _
   | cons s rest ih =>
     unfold AnyioModel.Kernel.restartList
     split
     · split
-      · exact Frame.refl _
-      · exact Frame.deliver _ _
+      · exact DFrame.refl _
+      · exact DFrame.deliver _ _
     · split
-      · exact Frame.refl _
+      · exact DFrame.refl _
       · exact ih
 
-theorem Frame.restartInParent (st : State) (s : Nat) : Frame st (restartInParent st s) :=
-  Frame.restartList _ _
+theorem DFrame.restartInParent (st : State) (s : Nat) : DFrame st (restartInParent st s) :=
+  DFrame.restartList _ _
 
 end AnyioModel.Kernel
 
@@ -237,7 +237,7 @@ theorem SameWalk.refl (st : State) : SameWalk st st := fun _ => rfl
 theorem SameWalk.trans {a b c : State} (h1 : SameWalk a b) (h2 : SameWalk b c) : SameWalk a c :=
   fun i => (h2 i).trans (h1 i)
 
-theorem Frame.sameWalk {st st' : State} (h : Frame st st') : SameWalk st st' :=
+theorem DFrame.sameWalk {st st' : State} (h : DFrame st st') : SameWalk st st' :=
   fun i => Scope.walk_of_ctl (h.scopes i)
 
 theorem SameWalk.setScope (st : State) (s : Nat) (f : Scope → Scope)
@@ -267,7 +267,7 @@ theorem SameNav.trans {a b c : State} (h1 : SameNav a b) (h2 : SameNav b c) : Sa
 theorem SameWalk.nav {st st' : State} (h : SameWalk st st') : SameNav st st' :=
   fun i => (congrArg Scope.nav (h i) :)
 
-theorem Frame.sameNav {st st' : State} (h : Frame st st') : SameNav st st' := h.sameWalk.nav
+theorem DFrame.sameNav {st st' : State} (h : DFrame st st') : SameNav st st' := h.sameWalk.nav
 
 section
 variable {a b : Scope} (h : a.nav = b.nav)
@@ -377,7 +377,7 @@ def exitMid (st : State) (t s : Nat) : State :=
   restartInParent (exitUnlink st t s) s
 
 /-- the absorb-or-propagate decision of `__exit__`, on the state `exitMid` produced -/
-def exitTail (st : State) (t s : Nat) (ev : ExcVal) : Option (State × ExitResult) :=
+def exitDecide (st : State) (t s : Nat) (ev : ExcVal) : Option (State × ExitResult) :=
   let sc := st.scopes s
   let fin := fun (st : State) => st.setScope s (fun x => { x with host := none })
   if sc.cancelCalled ∧ !parentVisible st s then
@@ -416,9 +416,9 @@ def exitGuard (st : State) (t s : Nat) : Prop :=
 instance (st : State) (t s : Nat) : Decidable (exitGuard st t s) := by
   unfold exitGuard; infer_instance
 
-theorem exitScope_eq (st : State) (t s : Nat) (ev : ExcVal) :
+theorem exitScope_split (st : State) (t s : Nat) (ev : ExcVal) :
     exitScope st t s ev =
-      if exitGuard st t s then none else exitTail (exitMid st t s) t s ev := rfl
+      if exitGuard st t s then none else exitDecide (exitMid st t s) t s ev := rfl
 
 /-! ### facts about `exitUnlink` and `exitMid` -/
 
@@ -486,8 +486,8 @@ theorem exitUnlink_queues (st : State) (t s : Nat) :
   dsimp only
   by_cases ht : (st.scopes s).timer = true <;> cases hp : (st.scopes s).parent <;>
     simp [ht, State.setScope, State.setTask, State.unschedule]
-theorem exitMid_frame (st : State) (t s : Nat) : Frame (exitUnlink st t s) (exitMid st t s) :=
-  Frame.restartInParent _ _
+theorem exitMid_frame (st : State) (t s : Nat) : DFrame (exitUnlink st t s) (exitMid st t s) :=
+  DFrame.restartInParent _ _
 
 theorem exitMid_sameWalk (st : State) (t s : Nat) : SameWalk st (exitMid st t s) :=
   (exitUnlink_sameWalk st t s).trans (exitMid_frame st t s).sameWalk
@@ -498,17 +498,17 @@ theorem exitMid_sameWalk (st : State) (t s : Nat) : SameWalk st (exitMid st t s)
 `pending`, `caught` and `host` -/
 def Scope.keep (x : Scope) : Scope := { x with pending := 0, caught := false, host := none }
 
-theorem setScope_proj {α : Type} (π : Scope → α) (st : State) (p : Nat) (f : Scope → Scope)
+theorem pure_setScope_proj {α : Type} (π : Scope → α) (st : State) (p : Nat) (f : Scope → Scope)
     (hf : ∀ x, π (f x) = π x) (i : Nat) : π ((st.setScope p f).scopes i) = π (st.scopes i) := by
   simp only [State.setScope, upd_apply]; split
   · subst_vars; exact hf _
   · rfl
 
-theorem setScope_same (st : State) (s : Nat) (f : Scope → Scope) :
+theorem pure_setScope_same (st : State) (s : Nat) (f : Scope → Scope) :
     (st.setScope s f).scopes s = f (st.scopes s) := by
   simp [State.setScope]
 
-/-- `exitTail` touches nothing but `pending` of `s` and of its parent, the cancellation counters
+/-- `exitDecide` touches nothing but `pending` of `s` and of its parent, the cancellation counters
 of `t`, and `caught` / `host` of `s` -/
 structure TailFrame (s : Nat) (m m' : State) : Prop where
   keep : ∀ i, (m'.scopes i).keep = (m.scopes i).keep
@@ -527,14 +527,14 @@ theorem TailFrame.refl (s : Nat) (m : State) : TailFrame s m m :=
 theorem TailFrame.setScope_any {s : Nat} {m m' : State} (h : TailFrame s m m') (p : Nat)
     (f : Scope → Scope) (hk : ∀ x, (f x).keep = x.keep) (hc : ∀ x, (f x).caught = x.caught)
     (hh : ∀ x, (f x).host = x.host) : TailFrame s m (m'.setScope p f) :=
-  ⟨fun i => (setScope_proj Scope.keep _ _ _ hk i).trans (h.keep i),
-   fun i hi => (setScope_proj Scope.caught _ _ _ hc i).trans (h.caughtOther i hi),
-   fun i hi => (setScope_proj Scope.host _ _ _ hh i).trans (h.hostOther i hi),
+  ⟨fun i => (pure_setScope_proj Scope.keep _ _ _ hk i).trans (h.keep i),
+   fun i hi => (pure_setScope_proj Scope.caught _ _ _ hc i).trans (h.caughtOther i hi),
+   fun i hi => (pure_setScope_proj Scope.host _ _ _ hh i).trans (h.hostOther i hi),
    h.now, h.timers, h.cur, h.ready, h.running, h.taskScope⟩
 
 theorem TailFrame.setScope_self {s : Nat} {m m' : State} (h : TailFrame s m m')
     (f : Scope → Scope) (hk : ∀ x, (f x).keep = x.keep) : TailFrame s m (m'.setScope s f) := by
-  refine ⟨fun i => (setScope_proj Scope.keep _ _ _ hk i).trans (h.keep i), ?_, ?_,
+  refine ⟨fun i => (pure_setScope_proj Scope.keep _ _ _ hk i).trans (h.keep i), ?_, ?_,
    h.now, h.timers, h.cur, h.ready, h.running, h.taskScope⟩
   · intro i hi; simp only [State.setScope, upd_other _ _ _ _ hi]; exact h.caughtOther i hi
   · intro i hi; simp only [State.setScope, upd_other _ _ _ _ hi]; exact h.hostOther i hi
@@ -570,7 +570,7 @@ structure TailSpec (m : State) (s : Nat) (r : ExitResult) (m' : State) : Prop wh
 theorem TailSpec.fin_passed {s : Nat} {m m' : State} (h : TailFrame s m m')
     (hc : (m'.scopes s).caught = (m.scopes s).caught) :
     TailSpec m s .passed (m'.setScope s (fun x => { x with host := none })) :=
-  ⟨h.setScope_self _ (by intro _; rfl), by simp [setScope_same, hc], by simp [setScope_same]⟩
+  ⟨h.setScope_self _ (by intro _; rfl), by simp [pure_setScope_same, hc], by simp [pure_setScope_same]⟩
 
 /-- finishing after setting `caught` -/
 theorem TailSpec.fin_caught {s : Nat} {m m' : State} (h : TailFrame s m m') (r : ExitResult)
@@ -578,13 +578,13 @@ theorem TailSpec.fin_caught {s : Nat} {m m' : State} (h : TailFrame s m m') (r :
     TailSpec m s r ((m'.setScope s (fun x => { x with caught := true })).setScope s
       (fun x => { x with host := none })) :=
   ⟨(h.setScope_self _ (by intro _; rfl)).setScope_self _ (by intro _; rfl),
-    by simp [setScope_same, hr], by simp [setScope_same]⟩
+    by simp [pure_setScope_same, hr], by simp [pure_setScope_same]⟩
 
-theorem exitTail_spec (m : State) (t s : Nat) (ev : ExcVal) :
-    ∃ m', exitTail m t s ev =
+theorem exitDecide_spec (m : State) (t s : Nat) (ev : ExcVal) :
+    ∃ m', exitDecide m t s ev =
         some (m', exitClass (m.scopes s).cancelCalled (parentVisible m s) ev) ∧
       TailSpec m s (exitClass (m.scopes s).cancelCalled (parentVisible m s) ev) m' := by
-  unfold exitTail exitClass
+  unfold exitDecide exitClass
   dsimp only
   by_cases hc : (m.scopes s).cancelCalled = true ∧ (!parentVisible m s) = true
   · have hc' : ((m.scopes s).cancelCalled && !parentVisible m s) = true := by simpa using hc
@@ -594,7 +594,7 @@ theorem exitTail_spec (m : State) (t s : Nat) (ev : ExcVal) :
       ((TailFrame.refl s m).taskUncancel t _).setScope_self _ (by intro _; rfl)
     have bc : (((taskUncancel m t (m.scopes s).pending).setScope s
         (fun x => { x with pending := 0 })).scopes s).caught = (m.scopes s).caught := by
-      simp [setScope_same, taskUncancel, State.setTask]
+      simp [pure_setScope_same, taskUncancel, State.setTask]
     cases ev with
     | none => exact ⟨_, rfl, TailSpec.fin_passed base bc⟩
     | one e =>
@@ -623,25 +623,25 @@ theorem exitTail_spec (m : State) (t s : Nat) (ev : ExcVal) :
         · intro x; rfl
       · exact TailFrame.refl s m
     · split
-      · rw [setScope_proj Scope.caught _ _ _ (by intro _; rfl)]
+      · rw [pure_setScope_proj Scope.caught _ _ _ (by intro _; rfl)]
         split
         · split
-          · rw [setScope_proj Scope.caught _ _ _ (by intro _; rfl)]
+          · rw [pure_setScope_proj Scope.caught _ _ _ (by intro _; rfl)]
           · rfl
         · rfl
       · rfl
 
 /-- `exitScope` = guard, then `exitMid`, then the decision, whose result is `exitClass` of the
 pre-state's `cancelCalled` and `parentVisible` -/
-theorem exitScope_spec {st st' : State} {t s : Nat} {ev : ExcVal} {r : ExitResult}
+theorem exitScope_class {st st' : State} {t s : Nat} {ev : ExcVal} {r : ExitResult}
     (h : exitScope st t s ev = some (st', r)) :
     ¬ exitGuard st t s ∧ r = exitClass (st.scopes s).cancelCalled (parentVisible st s) ev ∧
       TailSpec (exitMid st t s) s r st' := by
-  rw [exitScope_eq] at h
+  rw [exitScope_split] at h
   split at h
   · exact absurd h (by simp)
   · rename_i hg
-    obtain ⟨m', he, hs⟩ := exitTail_spec (exitMid st t s) t s ev
+    obtain ⟨m', he, hs⟩ := exitDecide_spec (exitMid st t s) t s ev
     rw [he] at h
     have hw := exitMid_sameWalk st t s
     rw [walk_cancelCalled (hw s), parentVisible_congr hw.nav] at h hs
@@ -652,8 +652,8 @@ theorem exitScope_spec {st st' : State} {t s : Nat} {ev : ExcVal} {r : ExitResul
 theorem exitScope_enabled {st : State} {t s : Nat} (ev : ExcVal) (hg : ¬ exitGuard st t s) :
     ∃ st', exitScope st t s ev =
       some (st', exitClass (st.scopes s).cancelCalled (parentVisible st s) ev) := by
-  rw [exitScope_eq, if_neg hg]
-  obtain ⟨m', he, _⟩ := exitTail_spec (exitMid st t s) t s ev
+  rw [exitScope_split, if_neg hg]
+  obtain ⟨m', he, _⟩ := exitDecide_spec (exitMid st t s) t s ev
   have hw := exitMid_sameWalk st t s
   rw [walk_cancelCalled (hw s), parentVisible_congr hw.nav] at he
   exact ⟨m', he⟩
@@ -821,7 +821,7 @@ theorem exitScope_queues {st st' : State} {t s : Nat} {ev : ExcVal} {r : ExitRes
     ∃ extra, st'.ready =
         (if (st.scopes s).timer then st.ready.filter (· ≠ .timeout s) else st.ready) ++ extra ∧
       ∀ h ∈ extra, ∀ s', h ≠ Handle.timeout s' := by
-  obtain ⟨_, _, hs⟩ := exitScope_spec h
+  obtain ⟨_, _, hs⟩ := exitScope_class h
   have hf := exitMid_frame st t s
   obtain ⟨q1, q2, q3, q4⟩ := exitUnlink_queues st t s
   refine ⟨hs.frame.now.trans (hf.now.trans q1), hs.frame.timers.trans (hf.timers.trans q2),
@@ -872,6 +872,551 @@ theorem TailFrame.sameNav {s : Nat} {m m' : State} (h : TailFrame s m m') : Same
 /-- `exitScope` changes the navigation part of no scope -/
 theorem exitScope_sameNav {st st' : State} {t s : Nat} {ev : ExcVal} {r : ExitResult}
     (h : exitScope st t s ev = some (st', r)) : SameNav st st' :=
-  (exitMid_sameWalk st t s).nav.trans (exitScope_spec h).2.2.frame.sameNav
+  (exitMid_sameWalk st t s).nav.trans (exitScope_class h).2.2.frame.sameNav
+
+/-! ### `current_effective_deadline` against a declarative spec -/
+
+/-- the walk of `current_effective_deadline` / `_effectively_cancelled` stops at this scope -/
+def stops (st : State) (s : Nat) : Bool := (st.scopes s).cancelCalled || (st.scopes s).shield
+
+/-- index of the first scope of the chain that is cancelled or shielded (`l.length` if none) -/
+def stopIdx (st : State) (l : List Nat) : Nat := l.findIdx (stops st)
+
+/-- the scopes the walk visits: the chain up to and including the first cancelled-or-shielded
+scope -/
+def walked (st : State) (l : List Nat) : List Nat := l.take (stopIdx st l + 1)
+
+/-- the scope the walk stops at exists and is cancelled -/
+def cancelledFirst (st : State) (l : List Nat) : Bool :=
+  (l[stopIdx st l]?).any (fun s => (st.scopes s).cancelCalled)
+
+def toED : Option Nat → EDeadline
+  | none => .inf
+  | some d => .at d
+
+/-- declarative reading of `current_effective_deadline()`: −∞ if the first cancelled-or-shielded
+scope is a cancelled one, otherwise the least finite deadline among the visited scopes -/
+def effDeadlineSpec (st : State) (l : List Nat) : EDeadline :=
+  if cancelledFirst st l then .negInf
+  else toED ((walked st l).filterMap (fun s => (st.scopes s).deadline)).min?
+
+theorem walked_nil (st : State) : walked st [] = [] := rfl
+
+theorem walked_cons (st : State) (s : Nat) (rest : List Nat) :
+    walked st (s :: rest) = if stops st s then [s] else s :: walked st rest := by
+  unfold walked stopIdx
+  rw [List.findIdx_cons]
+  cases stops st s <;> simp
+
+theorem cancelledFirst_nil (st : State) : cancelledFirst st [] = false := rfl
+
+theorem cancelledFirst_cons (st : State) (s : Nat) (rest : List Nat) :
+    cancelledFirst st (s :: rest) =
+      if stops st s then (st.scopes s).cancelCalled else cancelledFirst st rest := by
+  unfold cancelledFirst stopIdx
+  rw [List.findIdx_cons]
+  cases stops st s <;> simp
+
+theorem cancelledFirst_eq_effCancelledList (st : State) (l : List Nat) :
+    cancelledFirst st l = effCancelledList st l := by
+  induction l with
+  | nil => rfl
+  | cons s rest ih =>
+    rw [cancelledFirst_cons, effCancelledList, ih, stops]
+    cases (st.scopes s).cancelCalled <;> cases (st.scopes s).shield <;> simp
+
+theorem minOpt_none_right (a : Option Nat) : minOpt a none = a := by
+  cases a <;> rfl
+
+theorem minOpt_assoc (a b c : Option Nat) : minOpt (minOpt a b) c = minOpt a (minOpt b c) := by
+  cases a <;> cases b <;> cases c <;> simp [minOpt, Nat.min_assoc]
+
+theorem min?_filterMap_cons (f : Nat → Option Nat) (a : Nat) (l : List Nat) :
+    ((a :: l).filterMap f).min? = minOpt (f a) (l.filterMap f).min? := by
+  rw [List.filterMap_cons]
+  cases f a with
+  | none => rfl
+  | some d =>
+    simp only [List.min?_cons]
+    cases (l.filterMap f).min? <;> simp [minOpt]
+
+theorem effDeadlineList_eq (st : State) (l : List Nat) (acc : Option Nat) :
+    effDeadlineList st l acc =
+      if cancelledFirst st l then .negInf
+      else toED (minOpt acc ((walked st l).filterMap (fun s => (st.scopes s).deadline)).min?) := by
+  induction l generalizing acc with
+  | nil =>
+    simp only [effDeadlineList, cancelledFirst_nil, walked_nil, List.filterMap_nil,
+      Bool.false_eq_true, if_false]
+    cases acc <;> rfl
+  | cons s rest ih =>
+    rw [effDeadlineList, cancelledFirst_cons, walked_cons]
+    by_cases hc : (st.scopes s).cancelCalled = true
+    · simp [hc, stops]
+    · by_cases hs : (st.scopes s).shield = true
+      · have : stops st s = true := by simp [stops, hs]
+        simp only [hc, hs, this, if_true, if_false, Bool.false_eq_true]
+        rw [min?_filterMap_cons]
+        simp only [List.filterMap_nil, List.min?_nil, minOpt_none_right]
+        cases minOpt acc (st.scopes s).deadline <;> rfl
+      · have : stops st s = false := by
+          simp only [stops]; cases h1 : (st.scopes s).cancelCalled <;>
+            cases h2 : (st.scopes s).shield <;> simp_all
+        simp only [hc, hs, this, Bool.false_eq_true, if_false]
+        rw [ih, min?_filterMap_cons, minOpt_assoc]
+
+/-- `current_effective_deadline()` along a chain equals the declarative spec -/
+theorem effDeadlineList_spec (st : State) (l : List Nat) :
+    effDeadlineList st l none = effDeadlineSpec st l := by
+  rw [effDeadlineList_eq]; rfl
+
+/-- which scopes the walk visits, declaratively: those before which nobody is cancelled or
+shielded -/
+theorem mem_walked_iff (st : State) (l : List Nat) (s : Nat) :
+    s ∈ walked st l ↔
+      ∃ i, ∃ h : i < l.length, l[i] = s ∧
+        ∀ j (hj : j < i), stops st (l[j]'(Nat.lt_trans hj h)) = false := by
+  induction l with
+  | nil => simp [walked_nil]
+  | cons a rest ih =>
+    rw [walked_cons]
+    by_cases hst : stops st a = true
+    · simp only [hst, if_true, List.mem_singleton]
+      constructor
+      · rintro rfl; exact ⟨0, by simp, rfl, by intro j hj; omega⟩
+      · rintro ⟨i, h, hi, hb⟩
+        cases i with
+        | zero => simpa using hi.symm
+        | succ i => have := hb 0 (by omega); simp [hst] at this
+    · have hst' : stops st a = false := by simpa using hst
+      simp only [hst', Bool.false_eq_true, if_false, List.mem_cons, ih]
+      constructor
+      · rintro (rfl | ⟨i, h, hi, hb⟩)
+        · exact ⟨0, by simp, rfl, by intro j hj; omega⟩
+        · refine ⟨i + 1, by simpa using h, by simpa using hi, ?_⟩
+          intro j hj
+          cases j with
+          | zero => simpa using hst'
+          | succ j => simpa using hb j (by omega)
+      · rintro ⟨i, h, hi, hb⟩
+        cases i with
+        | zero => left; simpa using hi.symm
+        | succ i =>
+          right
+          refine ⟨i, by simpa using h, by simpa using hi, ?_⟩
+          intro j hj
+          simpa using hb (j + 1) (by omega)
+
+theorem toED_eq_at (o : Option Nat) (d : Nat) : toED o = .at d ↔ o = some d := by
+  cases o <;> simp [toED]
+
+theorem toED_eq_inf (o : Option Nat) : toED o = .inf ↔ o = none := by
+  cases o <;> simp [toED]
+
+theorem toED_ne_negInf (o : Option Nat) : toED o ≠ .negInf := by
+  cases o <;> simp [toED]
+
+/-! ### `cancel()`, `_timeout()`, `deadline = ...` -/
+
+/-- `handle.cancel()` of the timeout handle, if there is one -/
+def disarm (st : State) (s : Nat) : State :=
+  if (st.scopes s).timer then
+    (st.unschedule (.timeout s)).setScope s (fun x => { x with timer := false })
+  else st
+
+/-- `cancel()` up to the call of `_deliver_cancellation` -/
+def cancelMark (st : State) (s : Nat) (byDeadline : Bool) : State :=
+  (disarm st s).setScope s (fun x =>
+    { x with cancelCalled := true, byDeadline := byDeadline, cancelTime := (disarm st s).now })
+
+theorem cancelScope_split (st : State) (s : Nat) (bd : Bool) :
+    cancelScope st s bd =
+      if (st.scopes s).cancelCalled then st
+      else if ((cancelMark st s bd).scopes s).host.isSome then deliver (cancelMark st s bd) s
+      else cancelMark st s bd := by
+  unfold cancelScope cancelMark disarm
+  split
+  · rfl
+  · rfl
+
+theorem disarm_scopes (st : State) (s : Nat) :
+    (disarm st s).scopes = upd st.scopes s { st.scopes s with timer := false } := by
+  unfold disarm
+  split
+  · simp [State.setScope, State.unschedule]
+  · rename_i h
+    funext i
+    simp only [upd_apply]
+    split
+    · subst_vars
+      have h' : (st.scopes i).timer = false := by simpa using h
+      cases hx : st.scopes i
+      rw [hx] at h'
+      simp only at h'
+      subst h'
+      rfl
+    · rfl
+
+theorem disarm_now (st : State) (s : Nat) : (disarm st s).now = st.now := by
+  unfold disarm; split <;> rfl
+
+theorem disarm_timers (st : State) (s : Nat) :
+    (disarm st s).timers =
+      if (st.scopes s).timer then st.timers.filter (·.2 ≠ .timeout s) else st.timers := by
+  unfold disarm; split <;> simp [State.setScope, State.unschedule]
+
+/-- if the flag records every timer of `s`, disarming removes them all either way -/
+theorem disarm_timers_of_rec (st : State) (s : Nat)
+    (hrec : (st.scopes s).timer = false → ∀ w, (w, Handle.timeout s) ∉ st.timers) :
+    (disarm st s).timers = st.timers.filter (·.2 ≠ .timeout s) := by
+  rw [disarm_timers]
+  split
+  · rfl
+  · rename_i h
+    have := hrec (by simpa using h)
+    symm
+    rw [List.filter_eq_self]
+    intro p hp
+    obtain ⟨w, x⟩ := p
+    simp only [ne_eq, decide_not, Bool.not_eq_eq_eq_not, Bool.not_true, decide_eq_false_iff_not]
+    rintro rfl
+    exact this w hp
+
+theorem cancelMark_scopes (st : State) (s : Nat) (bd : Bool) :
+    (cancelMark st s bd).scopes = upd st.scopes s
+      { st.scopes s with timer := false, cancelCalled := true, byDeadline := bd,
+                         cancelTime := st.now } := by
+  unfold cancelMark
+  funext i
+  simp only [State.setScope, disarm_scopes, disarm_now, upd_apply]
+  split <;> simp
+
+/-- what `cancel()` does to a scope that was not cancelled yet, up to the bookkeeping fields -/
+theorem cancelScope_fresh (st : State) (s : Nat) (bd : Bool)
+    (hc : (st.scopes s).cancelCalled = false) :
+    ((cancelScope st s bd).scopes s).ctl =
+      { (st.scopes s).ctl with timer := false, cancelCalled := true, byDeadline := bd,
+                               cancelTime := st.now } ∧
+    (∀ i, i ≠ s → ((cancelScope st s bd).scopes i).ctl = (st.scopes i).ctl) ∧
+    (cancelScope st s bd).now = st.now ∧
+    (cancelScope st s bd).timers =
+      (if (st.scopes s).timer then st.timers.filter (·.2 ≠ .timeout s) else st.timers) ∧
+    (∀ t, ((cancelScope st s bd).tasks t).scope = (st.tasks t).scope) := by
+  have hm : ((cancelMark st s bd).scopes s).ctl =
+      { (st.scopes s).ctl with timer := false, cancelCalled := true, byDeadline := bd,
+                               cancelTime := st.now } := by
+    rw [cancelMark_scopes]; simp only [upd_same]; rfl
+  have ho : ∀ i, i ≠ s → ((cancelMark st s bd).scopes i).ctl = (st.scopes i).ctl := by
+    intro i hi; rw [cancelMark_scopes, upd_other _ _ _ _ hi]
+  have hn : (cancelMark st s bd).now = st.now := by
+    simp [cancelMark, State.setScope, disarm_now]
+  have ht : (cancelMark st s bd).timers =
+      (if (st.scopes s).timer then st.timers.filter (·.2 ≠ .timeout s) else st.timers) := by
+    simp only [cancelMark, State.setScope, disarm_timers]
+  have hk : ∀ t, ((cancelMark st s bd).tasks t).scope = (st.tasks t).scope := by
+    intro t; unfold cancelMark disarm; split <;> rfl
+  rw [cancelScope_split, if_neg (by simp [hc])]
+  split
+  · have hf := DFrame.deliver (cancelMark st s bd) s
+    exact ⟨(hf.scopes s).trans hm, fun i hi => (hf.scopes i).trans (ho i hi), hf.now.trans hn,
+      hf.timers.trans ht, fun t => (hf.taskScope t).trans (hk t)⟩
+  · exact ⟨hm, ho, hn, ht, hk⟩
+
+theorem cancelScope_already (st : State) (s : Nat) (bd : Bool)
+    (hc : (st.scopes s).cancelCalled = true) : cancelScope st s bd = st := by
+  rw [cancelScope_split, if_pos hc]
+
+theorem armTimeout_none (st : State) (s : Nat) (h : (st.scopes s).deadline = none) :
+    armTimeout st s = st := by
+  simp [armTimeout, h]
+
+theorem armTimeout_due (st : State) (s d : Nat) (h : (st.scopes s).deadline = some d)
+    (hd : d ≤ st.now) : armTimeout st s = cancelScope st s true := by
+  simp [armTimeout, h, hd]
+
+theorem armTimeout_early (st : State) (s d : Nat) (h : (st.scopes s).deadline = some d)
+    (hd : st.now < d) :
+    armTimeout st s =
+      { st.setScope s (fun x => { x with timer := true }) with
+        timers := st.timers ++ [(d, .timeout s)] } := by
+  have : ¬ st.now ≥ d := by omega
+  simp [armTimeout, h, this]
+
+theorem setDeadline_split (st : State) (s : Nat) (d : Option Nat) :
+    setDeadline st s d =
+      if (st.scopes s).active = true ∧ (st.scopes s).cancelCalled = false then
+        armTimeout (disarm (st.setScope s (fun x => { x with deadline := d })) s) s
+      else disarm (st.setScope s (fun x => { x with deadline := d })) s := by
+  have h1 : ((disarm (st.setScope s (fun x => { x with deadline := d })) s).scopes s).active =
+      (st.scopes s).active := by
+    rw [disarm_scopes]; simp [State.setScope]
+  have h2 : ((disarm (st.setScope s (fun x => { x with deadline := d })) s).scopes s).cancelCalled =
+      (st.scopes s).cancelCalled := by
+    rw [disarm_scopes]; simp [State.setScope]
+  unfold setDeadline
+  show (if ((disarm (st.setScope s (fun x => { x with deadline := d })) s).scopes s).active = true ∧
+      (!((disarm (st.setScope s (fun x => { x with deadline := d })) s).scopes s).cancelCalled) = true
+      then armTimeout (disarm (st.setScope s (fun x => { x with deadline := d })) s) s
+      else disarm (st.setScope s (fun x => { x with deadline := d })) s) = _
+  rw [h1, h2]
+  simp
+
+
+/-- the state `deadline = d` produces before re-arming -/
+def deadlineMid (st : State) (s : Nat) (d : Option Nat) : State :=
+  disarm (st.setScope s (fun x => { x with deadline := d })) s
+
+theorem deadlineMid_scopes (st : State) (s : Nat) (d : Option Nat) :
+    (deadlineMid st s d).scopes =
+      upd st.scopes s { st.scopes s with deadline := d, timer := false } := by
+  unfold deadlineMid
+  rw [disarm_scopes]
+  funext i
+  simp only [State.setScope, upd_apply]
+  split <;> simp
+
+theorem deadlineMid_now (st : State) (s : Nat) (d : Option Nat) :
+    (deadlineMid st s d).now = st.now := by
+  unfold deadlineMid; rw [disarm_now]; rfl
+
+theorem deadlineMid_timers (st : State) (s : Nat) (d : Option Nat) :
+    (deadlineMid st s d).timers =
+      if (st.scopes s).timer then st.timers.filter (·.2 ≠ .timeout s) else st.timers := by
+  unfold deadlineMid; rw [disarm_timers]; simp [State.setScope]
+
+theorem deadlineMid_timers_of_rec (st : State) (s : Nat) (d : Option Nat)
+    (hrec : (st.scopes s).timer = false → ∀ w, (w, Handle.timeout s) ∉ st.timers) :
+    (deadlineMid st s d).timers = st.timers.filter (·.2 ≠ .timeout s) := by
+  unfold deadlineMid
+  rw [disarm_timers_of_rec]
+  · rfl
+  · simpa [State.setScope] using hrec
+
+theorem deadlineMid_tasks (st : State) (s : Nat) (d : Option Nat) :
+    (deadlineMid st s d).tasks = st.tasks := by
+  unfold deadlineMid disarm; split <;> rfl
+
+theorem setDeadline_split' (st : State) (s : Nat) (d : Option Nat) :
+    setDeadline st s d =
+      if (st.scopes s).active = true ∧ (st.scopes s).cancelCalled = false then
+        armTimeout (deadlineMid st s d) s
+      else deadlineMid st s d := setDeadline_split st s d
+
+/-! ### the `timeout s` callback, `_timeout()` as a whole -/
+
+/-- the state in which `_timeout()` runs: the handle has been popped and is no longer live -/
+def runMid (st : State) (s : Nat) : State :=
+  ({ st with cur := st.cur.erase (.timeout s) }).setScope s (fun x => { x with timer := false })
+
+theorem step_run_timeout (st : State) (s : Nat) :
+    step st (.run (.timeout s)) =
+      if st.running.isSome ∨ Handle.timeout s ∉ st.cur then none
+      else some (armTimeout (runMid st s) s, .none) := by
+  simp only [step, runMid]
+
+theorem runMid_scopes (st : State) (s : Nat) :
+    (runMid st s).scopes = upd st.scopes s { st.scopes s with timer := false } := rfl
+
+/-- everything `_timeout()` (= `armTimeout`) does, for any state -/
+theorem armTimeout_cases (st : State) (s : Nat) :
+    (armTimeout st s).now = st.now ∧
+    (∀ i, i ≠ s → ((armTimeout st s).scopes i).ctl = (st.scopes i).ctl) ∧
+    (∀ t, ((armTimeout st s).tasks t).scope = (st.tasks t).scope) ∧
+    (match (st.scopes s).deadline with
+     | none => armTimeout st s = st
+     | some d =>
+       if st.now < d then
+         ((armTimeout st s).scopes s).ctl = { (st.scopes s).ctl with timer := true } ∧
+         (armTimeout st s).timers = st.timers ++ [(d, .timeout s)]
+       else if (st.scopes s).cancelCalled then armTimeout st s = st
+       else
+         ((armTimeout st s).scopes s).ctl =
+           { (st.scopes s).ctl with timer := false, cancelCalled := true, byDeadline := true,
+                                    cancelTime := st.now } ∧
+         (armTimeout st s).timers =
+           (if (st.scopes s).timer then st.timers.filter (·.2 ≠ .timeout s) else st.timers)) := by
+  cases hd : (st.scopes s).deadline with
+  | none =>
+    rw [armTimeout_none st s hd]
+    exact ⟨rfl, fun _ _ => rfl, fun _ => rfl, rfl⟩
+  | some d =>
+    by_cases hlt : st.now < d
+    · rw [armTimeout_early st s d hd hlt]
+      refine ⟨rfl, ?_, fun _ => rfl, ?_⟩
+      · intro i hi; simp [State.setScope, upd_other _ _ _ _ hi]
+      · show (if st.now < d then _ else _)
+        rw [if_pos hlt]
+        refine ⟨?_, rfl⟩
+        simp only [State.setScope, upd_same]; rfl
+    · rw [armTimeout_due st s d hd (by omega)]
+      cases hc : (st.scopes s).cancelCalled with
+      | true =>
+        rw [cancelScope_already st s true hc]
+        refine ⟨rfl, fun _ _ => rfl, fun _ => rfl, ?_⟩
+        simp [hlt]
+      | false =>
+        obtain ⟨h1, h2, h3, h4, h5⟩ := cancelScope_fresh st s true hc
+        refine ⟨h3, h2, h5, ?_⟩
+        simp only [hlt, if_false, Bool.false_eq_true]
+        exact ⟨h1, h4⟩
+
+/-! ### `__enter__`: linking, then `_timeout()`, then activation -/
+
+/-- `__enter__` up to (not including) the call of `_timeout()` -/
+def enterLink (st : State) (t s : Nat) : State :=
+  let tk := st.tasks t
+  let st := st.setScope s (fun x => { x with host := some t, tasks := t :: x.tasks })
+  if !tk.hasState then
+    (st.setTask t (fun x => { x with hasState := true, scope := some s })).setScope s
+      (fun x => { x with chain := [s] })
+  else
+    let pchain : List Nat := match tk.scope with
+      | some p => (st.scopes p).chain
+      | none => []
+    let st := st.setScope s (fun x => { x with parent := tk.scope, chain := s :: pchain })
+    let st := st.setTask t (fun x => { x with scope := some s })
+    match tk.scope with
+    | some p =>
+      st.setScope p (fun x => { x with children := s :: x.children, tasks := x.tasks.erase t })
+    | none => st
+
+theorem enterScope_split (st : State) (t s : Nat) :
+    enterScope st t s =
+      if (st.scopes s).active ∨ (st.scopes s).entered then none else
+      let st3 := armTimeout (enterLink st t s) s
+      let st4 := st3.setScope s (fun x => { x with active := true, entered := true })
+      some (if (st4.scopes s).cancelCalled then deliver st4 s else st4) := rfl
+
+/-- what linking leaves untouched in a scope -/
+def Scope.unlinked (x : Scope) : Scope :=
+  { x with host := none, tasks := [], children := [], parent := none, chain := [] }
+
+theorem pure_setTask_scopes (st : State) (t : Nat) (f : Task → Task) :
+    (st.setTask t f).scopes = st.scopes := rfl
+
+theorem enterLink_unlinked (st : State) (t s : Nat) (i : Nat) :
+    ((enterLink st t s).scopes i).unlinked = (st.scopes i).unlinked := by
+  unfold enterLink
+  dsimp only
+  split
+  · repeat (first | rw [pure_setTask_scopes] | rw [pure_setScope_proj Scope.unlinked _ _ _ (by intro _; rfl)])
+  · split <;>
+    repeat (first | rw [pure_setTask_scopes] | rw [pure_setScope_proj Scope.unlinked _ _ _ (by intro _; rfl)])
+
+theorem enterLink_queues (st : State) (t s : Nat) :
+    (enterLink st t s).now = st.now ∧ (enterLink st t s).timers = st.timers := by
+  unfold enterLink
+  dsimp only
+  split
+  · exact ⟨rfl, rfl⟩
+  · split <;> exact ⟨rfl, rfl⟩
+
+
+section
+variable {a b : Scope} (h : a.unlinked = b.unlinked)
+include h
+theorem unlinked_cancelCalled : a.cancelCalled = b.cancelCalled := (congrArg Scope.cancelCalled h :)
+theorem unlinked_deadline : a.deadline = b.deadline := (congrArg Scope.deadline h :)
+theorem unlinked_byDeadline : a.byDeadline = b.byDeadline := (congrArg Scope.byDeadline h :)
+theorem unlinked_cancelTime : a.cancelTime = b.cancelTime := (congrArg Scope.cancelTime h :)
+theorem unlinked_timer : a.timer = b.timer := (congrArg Scope.timer h :)
+theorem unlinked_shield : a.shield = b.shield := (congrArg Scope.shield h :)
+theorem unlinked_active : a.active = b.active := (congrArg Scope.active h :)
+theorem unlinked_caught : a.caught = b.caught := (congrArg Scope.caught h :)
+end
+
+/-- `__enter__` after its call of `_timeout()`: activation and the first delivery change nothing
+that `_timeout()` decided -/
+theorem enterScope_after_arm {st st' : State} {t s : Nat} (h : enterScope st t s = some st') :
+    (st.scopes s).active = false ∧ (st.scopes s).entered = false ∧
+    (st'.scopes s).active = true ∧
+    (st'.scopes s).cancelCalled = ((armTimeout (enterLink st t s) s).scopes s).cancelCalled ∧
+    (st'.scopes s).byDeadline = ((armTimeout (enterLink st t s) s).scopes s).byDeadline ∧
+    (st'.scopes s).cancelTime = ((armTimeout (enterLink st t s) s).scopes s).cancelTime ∧
+    (st'.scopes s).timer = ((armTimeout (enterLink st t s) s).scopes s).timer ∧
+    (∀ i, i ≠ s → (st'.scopes i).ctl = ((armTimeout (enterLink st t s) s).scopes i).ctl) ∧
+    st'.timers = (armTimeout (enterLink st t s) s).timers ∧
+    st'.now = (armTimeout (enterLink st t s) s).now := by
+  rw [enterScope_split] at h
+  split at h
+  · cases h
+  · rename_i hg
+    have hg' : (st.scopes s).active = false ∧ (st.scopes s).entered = false := by
+      cases h1 : (st.scopes s).active <;> cases h2 : (st.scopes s).entered <;> simp_all
+    simp only [Option.some.injEq] at h
+    have key : ∀ m : State, DFrame ((armTimeout (enterLink st t s) s).setScope s
+        (fun x => { x with active := true, entered := true })) m →
+        (m.scopes s).active = true ∧
+        (m.scopes s).cancelCalled = ((armTimeout (enterLink st t s) s).scopes s).cancelCalled ∧
+        (m.scopes s).byDeadline = ((armTimeout (enterLink st t s) s).scopes s).byDeadline ∧
+        (m.scopes s).cancelTime = ((armTimeout (enterLink st t s) s).scopes s).cancelTime ∧
+        (m.scopes s).timer = ((armTimeout (enterLink st t s) s).scopes s).timer ∧
+        (∀ i, i ≠ s → (m.scopes i).ctl = ((armTimeout (enterLink st t s) s).scopes i).ctl) ∧
+        m.timers = (armTimeout (enterLink st t s) s).timers ∧
+        m.now = (armTimeout (enterLink st t s) s).now := by
+      intro m hf
+      have hs := hf.scopes s
+      rw [pure_setScope_same] at hs
+      refine ⟨(ctl_active hs :), (ctl_cancelCalled hs :), (ctl_byDeadline hs :),
+        (ctl_cancelTime hs :), (ctl_timer hs :), ?_, hf.timers, hf.now⟩
+      intro i hi
+      have := hf.scopes i
+      simp only [State.setScope, upd_other _ _ _ _ hi] at this
+      exact this
+    refine ⟨hg'.1, hg'.2, ?_⟩
+    split at h
+    · subst h; exact key _ (DFrame.deliver _ _)
+    · subst h; exact key _ (DFrame.refl _)
+
+/-! ### scope-tree links after `__exit__` (for C05) -/
+
+theorem exitUnlink_links (st : State) (t s : Nat) :
+    (∀ p, (st.scopes s).parent = some p → p ≠ s →
+      ((exitUnlink st t s).scopes p).children = (st.scopes p).children.erase s ∧
+      ((exitUnlink st t s).scopes p).tasks = t :: (st.scopes p).tasks) ∧
+    ((st.scopes s).parent ≠ some s →
+      ((exitUnlink st t s).scopes s).tasks = (st.scopes s).tasks.erase t ∧
+      ((exitUnlink st t s).scopes s).children = (st.scopes s).children) ∧
+    (∀ i, i ≠ s → (st.scopes s).parent ≠ some i →
+      ((exitUnlink st t s).scopes i).tasks = (st.scopes i).tasks ∧
+      ((exitUnlink st t s).scopes i).children = (st.scopes i).children) := by
+  unfold exitUnlink
+  dsimp only
+  refine ⟨?_, ?_, ?_⟩
+  · intro p hp hne
+    rw [hp]
+    by_cases ht : (st.scopes s).timer = true <;>
+      simp [ht, State.setScope, State.setTask, State.unschedule, hne]
+  · intro hne
+    cases hp : (st.scopes s).parent with
+    | none =>
+      by_cases ht : (st.scopes s).timer = true <;>
+        simp [ht, State.setScope, State.setTask, State.unschedule]
+    | some p =>
+      have : s ≠ p := by rintro rfl; exact hne hp
+      by_cases ht : (st.scopes s).timer = true <;>
+        simp [ht, State.setScope, State.setTask, State.unschedule, this]
+  · intro i hi hne
+    cases hp : (st.scopes s).parent with
+    | none =>
+      by_cases ht : (st.scopes s).timer = true <;>
+        simp [ht, State.setScope, State.setTask, State.unschedule, hi]
+    | some p =>
+      have : i ≠ p := by rintro rfl; exact hne hp
+      by_cases ht : (st.scopes s).timer = true <;>
+        simp [ht, State.setScope, State.setTask, State.unschedule, hi, this]
+
+/-- `tasks` and `children` of every scope after `exitScope` are those `exitUnlink` produced -/
+theorem exitScope_links {st st' : State} {t s : Nat} {ev : ExcVal} {r : ExitResult}
+    (h : exitScope st t s ev = some (st', r)) (i : Nat) :
+    (st'.scopes i).tasks = ((exitUnlink st t s).scopes i).tasks ∧
+    (st'.scopes i).children = ((exitUnlink st t s).scopes i).children := by
+  obtain ⟨_, _, hs⟩ := exitScope_class h
+  have hf := exitMid_frame st t s
+  have hk := hs.frame.keep i
+  have h1 : (st'.scopes i).tasks = ((exitMid st t s).scopes i).tasks := (congrArg Scope.tasks hk :)
+  have h2 : (st'.scopes i).children = ((exitMid st t s).scopes i).children :=
+    (congrArg Scope.children hk :)
+  exact ⟨h1.trans (ctl_tasks (hf.scopes i)), h2.trans (ctl_children (hf.scopes i))⟩
 
 end AnyioModel.Kernel
